@@ -43,6 +43,7 @@ namespace
     {
         if (rep.empty_container) probe("empty_container");
         if (rep.len_65535) probe("len_65535");
+        if (rep.payload_64k) probe("payload_64k_or_more");
         if (rep.nested3) probe("nested_depth3");
         if (rep.nontrivial_elem) probe("non_trivial_element");
     }
@@ -64,7 +65,7 @@ namespace
             int n = (int)r.range(1, cut ? 4 : 6);
             for (int i = 0; i < n; i++)
             {
-                bool big = tier == THOROUGH ? r.chance(1, 12) : r.chance(1, 150);
+                bool big = tier == THOROUGH ? r.chance(1, 12) : r.chance(1, 40);
                 if (cut) big = false;
                 p.ops.push_back({(int64_t)r.below(64), (int64_t)(r.next() >> 16), big ? 1 : 0});
             }
